@@ -218,7 +218,7 @@ def scram(prog, run):
     ic = [g for g in prog.fns.values() if g.qname == 'QXmppSaslClientScram::isComplete' and g.entry is not None]
     if not ic:
         raise AnalysisBroken('C06.R7: QXmppSaslClientScram::isComplete has no body in the analysed units')
-    rets = [ic[0].nodes[ic[0].skip(r['e'])] for _, r in ic[0].returns() if 'e' in r]
+    rets = [ic[0].nodes[ic[0].resolve(r['e'])] for _, r in ic[0].returns() if 'e' in r]        # through a named local
     flag = rets[0].get('f') if len(rets) == 1 and rets[0]['k'] == 'mem' and (rets[0].get('t') or '').replace('const ', '') == 'bool' else None
     if flag is None:
         run.violation(r7, 'QXmppSaslClientScram::isComplete#not-the-verification-flag', ic[0].loc(),
